@@ -97,7 +97,7 @@ def finish(ctx, t0, level="other", explanation="", extra_cov=None):
     for k in stale:
         # a listed finding that is no longer reported: tell the reader, do not fail
         print(f"note: known finding `{k}` of {ctx.prop} was not reported by this run (repaired, or rule not in this tier)")
-    ev_dir = os.path.join(VERIF, "evidence")
+    ev_dir = os.environ.get("VERIF_EVIDENCE_DIR") or os.path.join(VERIF, "evidence")
     os.makedirs(ev_dir, exist_ok=True)
     oks = [i for i in ctx.insts if i.status == "ok"]
     distinct = len({(i.rule, i.key) for i in ctx.insts if i.nontrivial})
@@ -144,8 +144,12 @@ def finish(ctx, t0, level="other", explanation="", extra_cov=None):
         vp = os.path.join(ev_dir, f"{ctx.prop}.violations.json")
         with open(vp, "w") as f:
             json.dump([i.to_json() for i in unlisted], f, indent=1)
-        for i in unlisted[:40]:
-            print(f"  {i.status.upper()} rule={i.rule} key={i.key} at {i.where}: {i.msg}")
+        shown = set()
+        for i in unlisted:
+            if i.key in shown or len(shown) >= 40:
+                continue
+            shown.add(i.key)
+            print(f"  {i.status.upper()} rule={i.rule} key={i.key} at {i.where}: {i.msg}"[:700])
         print(f"VIOLATION property={ctx.prop} replay={vp}")
         return 1
     return 0
